@@ -17,7 +17,7 @@ RULE = ('case = (direction, signer algorithm, hash, signature kind/type, option 
         'non-trivial = carries at least one optional subpacket, or a non-document subject, or a hash other than SHA-256; '
         'distinct = distinct case descriptors')
 ASSUMPTIONS = ['cryptography/OpenSSL public-key primitives', 'vf.ref.sig (validated on all fixture self-signatures)', 'gpg 2.2 when present (second acceptor, lenient on subpacket content)']
-MIN_COUNTERS = {'quick': {'pgpy_made_ref_verified': 150, 'pgpy_made_reimport_verified': 150, 'ref_made_pgpy_verified': 150, 'uid_certifications_verified_after_transport': 150, 'zero_id_selfsigs_verified': 100, 'zero_id_data_signatures_verified': 40},
+MIN_COUNTERS = {'quick': {'pgpy_made_ref_verified': 150, 'pgpy_made_reimport_verified': 150, 'ref_made_pgpy_verified': 150, 'uid_certifications_verified_after_transport': 150, 'zero_id_selfsigs_verified': 100, 'zero_id_data_signatures_verified': 40, 'attributes_read_back': 800},
                 'thorough': {'pgpy_made_ref_verified': 800, 'ref_made_pgpy_verified': 800}}
 BUDGET = {'quick': (600, 1500), 'thorough': (1500, 3600)}
 TECHNIQUE = 'runtime monitoring: differential reference-model monitor (independent RFC 4880 5.2.4 verifier and signer) + GnuPG second oracle'
@@ -30,6 +30,11 @@ GENERIC_OPTS = [
     {'include_issuer_fingerprint': False}, {'user': 1}, {'intended_recipients': 1},
     {'notation': {'näme@example.org': 'välue 日本'}}, {'policy_uri': 'https://example.org/pölicy'},
     {'expires': 1, 'notation': {'a@b': 'c'}, 'policy_uri': 'p', 'revocable': False},
+    # subpackets whose total length sits on either side of every length-encoding boundary (191|192, 8383|8384, 16319|16320, 65535|65536)
+    {'policy_uri': 'https://example.org/' + 'p' * (190 - 21)}, {'policy_uri': 'https://example.org/' + 'p' * (191 - 21)}, {'policy_uri': 'https://example.org/' + 'p' * 300},
+    {'policy_uri': 'https://example.org/' + 'p' * (8382 - 21)}, {'policy_uri': 'https://example.org/' + 'p' * (8383 - 21)}, {'notation': {'long@example.org': 'v' * 9000}},
+    {'policy_uri': 'https://example.org/' + 'p' * 12007}, {'notation': {'long@example.org': 'v' * (16318 - 26)}}, {'notation': {'long@example.org': 'v' * 16400}},
+    {'notation': {'a@example.org': 'x' * 200, 'b@example.org': 'y' * 9000}, 'policy_uri': 'u' * 8400},
 ]
 SELF_OPTS = [
     {'usage': ['Sign', 'Certify']}, {'usage': []}, {'ciphers': ['AES256', 'CAST5'], 'hashes': ['SHA512', 'SHA1'], 'compression': ['BZ2', 'Uncompressed']},
@@ -356,6 +361,8 @@ def _A(ctx, d, pgpy):
         pub2 = pgpy.PGPKey.from_blob(bytes(t.key))[0]
         if t.carrier == 'detached':
             sig2 = pgpy.PGPSignature.from_blob(sigbytes)
+            if ps is not None:
+                attributes_read_back(ctx, sig2, ps, d)
             subj2 = _reimport_subject(t, pub2, pgpy)
             r, det = sigwork.pgpy_verify(pub2, subj2, sig2)
             keep = subj2
@@ -393,6 +400,59 @@ def _A(ctx, d, pgpy):
         ctx.nontrivial(d)
     if len(ctx.samples) < 4:
         ctx.sample({'case': d, 'signature_packet': hx(sigbytes)[:160]})
+
+
+KNOWN_IDS = {11: {1, 2, 3, 4, 7, 8, 9, 10, 11, 12, 13}, 21: {1, 2, 3, 8, 9, 10, 11}, 22: {0, 1, 2, 3}}
+
+
+def attributes_read_back(ctx, sig, ps, d):
+    """what the attributes of a parsed signature say equals what its subpackets hold, decoded independently (first hashed instance)"""
+    def first(t):
+        v = RS.sp_get(ps, t, hashed_only=True)
+        return bytes(v[0]) if v else None
+    exp, got = {}, {}
+    for t, name in ((11, 'cipherprefs'), (21, 'hashprefs'), (22, 'compprefs')):
+        b = first(t)
+        if b is not None:
+            exp[name] = [x for x in b if x in KNOWN_IDS[t]]
+            got[name] = [int(x) for x in getattr(sig, name)]
+    b = first(27)
+    if b is not None and len(b) >= 1:
+        exp['key_flags'] = sorted(1 << i for i in range(8) if b[0] >> i & 1 and (1 << i) in (1, 2, 4, 8, 0x10, 0x20, 0x80))
+        got['key_flags'] = sorted(int(x) for x in sig.key_flags)
+    b = first(30)
+    if b is not None and len(b) >= 1:
+        exp['features'] = sorted(1 << i for i in range(8) if b[0] >> i & 1 and (1 << i) in (1,))
+        got['features'] = sorted(int(x) for x in sig.features if int(x) in (1,))
+    for t, name in ((24, 'keyserver'), (26, 'policy_uri')):
+        b = first(t)
+        if b is not None:
+            try:
+                exp[name] = b.decode('utf-8')
+                got[name] = getattr(sig, name)
+            except UnicodeDecodeError:
+                pass
+    for t, name in ((7, 'revocable'), (4, 'exportable')):
+        b = first(t)
+        if b is not None and len(b) == 1:
+            exp[name] = bool(b[0])
+            got[name] = getattr(sig, name)
+    b = first(9)
+    if b is not None and len(b) == 4:
+        exp['key_expiration'] = int.from_bytes(b, 'big')
+        got['key_expiration'] = int(sig.key_expiration.total_seconds()) if sig.key_expiration is not None else None
+    b = first(3)
+    if b is not None and len(b) == 4:
+        exp['expires_after'] = int.from_bytes(b, 'big')
+        got['expires_after'] = int((sig.expires_at - sig.created).total_seconds()) if sig.expires_at is not None else None
+    c = RS.created(ps)
+    if c is not None:
+        exp['created'] = c
+        got['created'] = int(sig.created.timestamp())
+    ctx.count('attributes_read_back', len(exp))
+    bad = sorted(k_ for k_ in exp if exp[k_] != got[k_])
+    if bad:
+        ctx.fail('attribute-of-parsed-signature-differs-from-its-subpackets', {'case': d, 'attributes': bad, 'got': {k_: repr(got[k_])[:60] for k_ in bad}, 'in_the_octets': {k_: repr(exp[k_])[:60] for k_ in bad}})
 
 
 def _reimport_subject(t, pub2, pgpy):
